@@ -13,9 +13,13 @@ fuzz_target!(|data: &[u8]| {
     let compile = || bladeink_compiler::Compiler::new().compile(&src);
     match compile() {
         Err(e) => {
-            if let Some(line) = e.line() {
-                let n = src.lines().count().max(1);
-                assert!(line >= 1 && line <= n + 1, "C06 error line {line} outside the input ({n} lines)");
+            let line = match &e {
+                bladeink_compiler::CompilerError::InvalidSource { line, .. } => *line,
+                bladeink_compiler::CompilerError::UnsupportedFeature { line, .. } => *line,
+            };
+            if let Some(line) = line {
+                let n = src.split('\n').count().max(1);
+                assert!(line >= 1 && line <= n, "C06 error line {line} outside the input ({n} lines)");
             }
         }
         Ok(json) => {
